@@ -675,7 +675,11 @@ def check_on_geo2(
     sens_names = file_dict["sensors names"]
     sens_names = flatten_sns_names(sens_names, ref_ind)
     df_map = file_dict["mapping"]
-    constraints = file_dict["constraints"].fillna(0)
+    # 'constraints' is an optional sheet
+    constraints = file_dict.get("constraints")
+    if constraints is None:
+        constraints = pd.DataFrame()
+    constraints = constraints.fillna(0)
 
     if fill_na == "zero":
         df_map = df_map.fillna(0.0)
